@@ -7,9 +7,9 @@
 package sim
 
 import (
-	apierrors "k8s.io/apimachinery/pkg/api/errors"
 	"context"
 	"fmt"
+	apierrors "k8s.io/apimachinery/pkg/api/errors"
 	"sort"
 	"sync"
 	"time"
